@@ -173,11 +173,23 @@ def _abort_site(stderr):
 
 class Daemon(object):
     def __init__(self, build, conf_text, leaks=True, env=None, args=("-n",), hooks=True,
-                 watchdog=30.0, keep=False, wrapper=(), transport=None, sndbuf=4608):
+                 watchdog=30.0, keep=False, wrapper=(), transport=None, sndbuf=4608, link=None):
         self.build = build
         self.dir = tempfile.mkdtemp(prefix="iauthd-verif-", dir=SCRATCH_ROOT)
         self.conf_path = os.path.join(self.dir, "iauthd.conf")
-        with open(self.conf_path, "w", encoding="latin-1") as f:
+        # link: the name given with -f goes through a symbolic link - "file": iauthd.conf -> release-N.conf, "dir":
+        # current/iauthd.conf with current -> vN - and a new configuration is installed by re-pointing the link (atomic deploy)
+        self.link = link
+        real = self.conf_path
+        if link == "file":
+            real = os.path.join(self.dir, "release-0.conf")
+            os.symlink("release-0.conf", self.conf_path)
+        elif link == "dir":
+            os.mkdir(os.path.join(self.dir, "v0"))
+            os.symlink("v0", os.path.join(self.dir, "current"))
+            real = os.path.join(self.dir, "v0", "iauthd.conf")
+            self.conf_path = os.path.join(self.dir, "current", "iauthd.conf")
+        with open(real, "w", encoding="latin-1") as f:
             f.write(conf_text)
         self.hooks = hooks
         self.watchdog = watchdog
@@ -371,7 +383,7 @@ class Daemon(object):
         except (BrokenPipeError, OSError):
             raise Died()
 
-    def reload(self, new_text, wait=True, inplace=None):
+    def reload(self, new_text, wait=True, inplace=None, fail_first=False):
         """Replace the configuration file and send SIGUSR1.  Every second reload of a daemon overwrites the file in place
         (same inode, possibly the same size and modification second), the others rename a new file over it."""
         self.nreload = getattr(self, "nreload", 0) + 1
@@ -382,7 +394,20 @@ class Daemon(object):
         if inplace is None:
             inplace = mode in (0, 2)
             old_mtime = mode == 3
-        if inplace:
+        if self.link:
+            n = self.nreload
+            if self.link == "file":
+                with open(os.path.join(self.dir, "release-%d.conf" % n), "w", encoding="latin-1") as f:
+                    f.write(new_text)
+                target, name = "release-%d.conf" % n, os.path.join(self.dir, "iauthd.conf")
+            else:
+                os.mkdir(os.path.join(self.dir, "v%d" % n))
+                with open(os.path.join(self.dir, "v%d" % n, "iauthd.conf"), "w", encoding="latin-1") as f:
+                    f.write(new_text)
+                target, name = "v%d" % n, os.path.join(self.dir, "current")
+            os.symlink(target, name + ".tmp")
+            os.replace(name + ".tmp", name)
+        elif inplace:
             with open(self.conf_path, "w", encoding="latin-1") as f:
                 f.write(new_text)
         else:
@@ -393,9 +418,25 @@ class Daemon(object):
                 # a file prepared long ago and moved into place (mv, cp -p, rsync -t): older than the one it replaces
                 os.utime(tmp, (1577836800 + self.nreload, 1577836800 + self.nreload))
             os.replace(tmp, self.conf_path)
+        pre = []
+        if fail_first and wait and self.hooks:
+            # the environment fails once: with the new file in place, the first SIGUSR1 finds the process out of file descriptors
+            # (fopen: EMFILE - the load fails for a reason that has nothing to do with the file); then the limit is back and a second
+            # SIGUSR1 is sent: that one must bring the new file into force
+            import resource
+            fds = set(int(x) for x in os.listdir("/proc/%d/fd" % self.p.pid))
+            free = next(k for k in range(4096) if k not in fds)
+            soft, hard = resource.prlimit(self.p.pid, resource.RLIMIT_NOFILE)
+            resource.prlimit(self.p.pid, resource.RLIMIT_NOFILE, (free, hard))
+            try:
+                self.p.send_signal(signal.SIGUSR1)
+                pre = self._collect_until("#verif reload")
+            finally:
+                resource.prlimit(self.p.pid, resource.RLIMIT_NOFILE, (soft, hard))
+            self.failed_reloads = getattr(self, "failed_reloads", 0) + 1
         self.p.send_signal(signal.SIGUSR1)
         if wait and self.hooks:
-            return self._collect_until("#verif reload")
+            return pre + self._collect_until("#verif reload")
         return []
 
     def finish(self, timeout=None):
